@@ -14,6 +14,15 @@ KAPPA_NOMINAL = {"extrapol2": Fraction(-1), "fromm": Fraction(0), "quick": Fract
 LIMITERS = ["minmod", "vanalbada", "vanleer", "superbee"]
 
 
+class KappaTruthiness(AnalysisError):
+    """self.kprec is built with `k or c` / `c if not k else k`: it is the parameter only when the
+    parameter is truthy -- for k = 0 (a legitimate kappa: Fromm's scheme) it is something else"""
+    def __init__(self, clsname, op, summ):
+        AnalysisError.__init__(self, "xnum.%s: kappa depends on the truthiness of the constructor parameter" % clsname)
+        self.clsname, self.op, self.summ = clsname, op, summ
+        self.violation = ("KAPPA-PARAM", "xnum.%s" % clsname, "self.kprec is the constructor parameter only when the parameter is truthy (`k or c` / conditional on k): for k = 0, a legitimate kappa (Fromm's scheme), the stencil is that of another kappa", "kappa-truthy")
+
+
 class Disc1D:
     def __init__(self, proj, neq=1, periodic=True):
         self.proj = proj
@@ -77,6 +86,8 @@ class Disc1D:
             attrs["kprec"] = A.sym("kappa")
         elif kind == "const":
             attrs["kprec"] = Fraction(val) if not isinstance(val, Fraction) else val
+        elif kind == "truthy":
+            raise KappaTruthiness(clsname, val, summ["kprec"])
         elif kind == "expr":
             try:
                 attrs["kprec"] = const_eval(val, {})
